@@ -480,10 +480,10 @@ def rule_accessor_wiring(ctx, R):
     return n
 
 
-def rule_observers(ctx, R):
+def rule_observers(ctx, R, parts=('wasted', 'skip', 'idle', 'clear')):
     """observers of expiry do not depend on when the periodic collection runs"""
     n = 0
-    w = ctx.anchor(R, API + '::wasted')
+    w = ctx.anchor(R, API + '::wasted') if 'wasted' in parts else None
     if w is not None:
         aw = w.find_calls(API + '::auto_waste')
         fu = w.find_calls('track::store::TrackStore::find_usable')
@@ -492,7 +492,7 @@ def rule_observers(ctx, R):
                   'wasted:flushes-first', 'auto_waste() dominates the scan of the wasted store',
                   'wasted() scans the wasted store without first collecting expired tracks from the live store: what '
                   'it returns depends on when the periodic collection last ran')
-    s = ctx.anchor(R, API + '::skip_epochs_for_scene')
+    s = ctx.anchor(R, API + '::skip_epochs_for_scene') if 'skip' in parts else None
     if s is not None:
         sk = s.find_calls(EPOCH + '::skip_epochs_for_scene')
         aw = s.find_calls(API + '::auto_waste')
@@ -503,7 +503,7 @@ def rule_observers(ctx, R):
             'param', 3) if sk and eb.arg(sk[0], 1).strip().kind == 'place' and eb.arg(sk[0], 2).strip().kind == 'place' else False
         ctx.check(ok and fw, R, s, 'skip:forwards-and-collects', '', 'skip_epochs_for_scene does not forward '
                   '(scene_id, n) to the epoch db followed by a collection of expired tracks')
-    se = ctx.anchor(R, API + '::skip_epochs')
+    se = ctx.anchor(R, API + '::skip_epochs') if 'skip' in parts else None
     if se is not None:
         cs = se.find_calls(API + '::skip_epochs_for_scene')
         eb = ExprBuilder(se)
@@ -512,7 +512,7 @@ def rule_observers(ctx, R):
             eb.arg(cs[0], 2).strip().root == ('param', 2)
         ctx.check(ok, R, se, 'skip_epochs:scene0', '', 'skip_epochs does not delegate to skip_epochs_for_scene(0, n)')
     # idle listings exclude expired-but-uncollected tracks
-    for tname, t in TRACKERS.items():
+    for tname, t in (TRACKERS.items() if 'idle' in parts else ()):
         b = ctx.anchor(R, t['idle'])
         if b is None:
             continue
@@ -576,7 +576,7 @@ def rule_observers(ctx, R):
                              for x in q.walk())
         ctx.check(okl, R, b, tname + ':idle-lookup(scene)', '', 'the idle listing does not query IdleLookup(scene_id) '
                   'for the requested scene')
-    cw = ctx.anchor(R, API + '::clear_wasted')
+    cw = ctx.anchor(R, API + '::clear_wasted') if 'clear' in parts else None
     if cw is not None:
         cl = cw.find_calls('track::store::TrackStore::clear')
         fl = cw.find_calls(API + '::auto_waste', API + '::get_main_store_wasted', API + '::wasted')
